@@ -408,6 +408,129 @@ def check_C08(ctx, w):
                        "TLC explores all linearization points of spec/SodLin.tla"]
 
 
+LOCK_CFG = """SPECIFICATION %(spec)s
+CONSTANTS
+  T = %(T)d
+  Entries = {%(entries)s}
+  Flusher = "%(flusher)s"
+  FlushRounds = %(rounds)d
+  MaxBack = %(back)d
+INVARIANTS TypeOK Balanced NoWaitCycle NoReentry LockOrder
+%(props)s
+"""
+
+
+def check_C09(ctx, w):
+    ctx.rule = ("the lock operations of EVERY exported entry point and spawned goroutine are extracted from the current source (type-aware AST walk, inlining, epsilon edges for skipped / repeated blocks and "
+                "returns); TLC explores all interleavings of all pairs of distinct entry programs plus the flusher under Go's RWMutex semantics (announced writers block new readers); "
+                "binding: lock operations recorded on real runs (site + entry point) must be paths of the extracted programs (SodLockTrace); the concurrent corpus runs with a progress watchdog; "
+                "a case = one pair of entry programs; non-trivial = both take a lock")
+    facts, tla, out = vlib.extract_facts(w.sub("facts"))
+    log("  " + out)
+    def fld(n):
+        for a, b in ((".", "_"), ("#", "_"), ("@", "_at_"), ("*", ""), ("(", ""), (")", ""), (":", "_")):
+            n = n.replace(a, b)
+        return n
+    sig = {}
+    for p in facts:
+        if p["ops"] and not p["name"].startswith("go@"):
+            sig.setdefault(json.dumps([[(o["k"], o["m"]) for o in p["ops"]], p["eps"]]), []).append(fld(p["name"]))
+    reps = sorted(v[0] for v in sig.values())
+    gos = [fld(p["name"]) for p in facts if p["name"].startswith("go@") and p["ops"]]
+    flusher = gos[0] if gos else ""
+    ctx.extra_cov["entry_points"] = sum(1 for p in facts if not p["name"].startswith("go@"))
+    ctx.extra_cov["entry_points_with_locks"] = sum(len(v) for v in sig.values())
+    ctx.extra_cov["distinct_lock_programs"] = len(reps)
+    ctx.extra_cov["goroutine_programs"] = gos
+    ctx.extra_cov["lock_operations_extracted"] = sum(len(p["ops"]) for p in facts)
+
+    def run(name, T, entries, rounds, back, spec="Spec", props="", timeout=1500, workers=vlib.NCPU):
+        d = w.sub("lock-" + name)
+        import shutil
+        for f in os.listdir(vlib.SPEC):
+            if f.endswith(".tla"):
+                shutil.copy(os.path.join(vlib.SPEC, f), d)
+        shutil.copy(tla, os.path.join(d, "SodLockFacts.tla"))     # the facts of THIS tree, not the committed snapshot
+        cfg = LOCK_CFG % dict(spec=spec, T=T, entries=", ".join('"%s"' % e for e in entries), flusher=flusher, rounds=rounds, back=back, props=props)
+        r = vlib.tlc("SodLock", cfg, d, workers=workers, timeout=timeout, heap="16g", name="SodLock_" + name)
+        ctx.mc_states += r.distinct
+        ctx.mc_transitions += r.generated
+        log("  [lock %s] T=%d, %d entry programs, flusher rounds %d, loop repeats %d: %d distinct states, %d transitions, %.1fs%s" %
+            (name, T, len(entries), rounds, back, r.distinct, r.generated, r.wall, "" if r.completed else "  ** " + (", ".join(r.violated) or ("deadlock" if r.deadlock else "not completed"))))
+        return r
+    results = [run("pairs", 2, reps, 1, ctx.q(0, 1))]
+    writers = [e for e in reps if e in ("DB_InsertOrUpdate", "DB_Delete", "DB_All", "DB_Search", "Search_Collect", "DB_Get", "DB_Create", "DB_Close", "DB_FlushAllAndCommit")]
+    if not ctx.quick:
+        results.append(run("triples", 3, writers, 1, 0))
+        results.append(run("live", 2, writers, 1, 0, spec="FairSpec", props="PROPERTY Returns", workers=8))
+    ctx.nontrivial = set("%s|%s" % (a, b) for a in reps for b in reps if a <= b)
+    ctx.samples.append({"entry_programs": reps[:6], "example": next((p for p in facts if p["name"] == "DB.InsertOrUpdate"), None)})
+    bad = [r for r in results if not r.completed]
+    # binding: recorded lock operations of real runs follow the extracted programs
+    binp = vlib.build()
+    uni = gen.universe(binp)
+    tests = [gen.random_test(uni, ctx.rng, i, nops=20, p_query=0.1, p_reopen=0.1) for i in range(ctx.q(8, 40))]
+    tests += [gen.async_test(uni, ctx.rng, i) for i in range(ctx.q(4, 20))]
+    bd = w.sub("bind")
+    vlib.write_ndjson(os.path.join(bd, "tests.ndjson"), tests)
+    lp = os.path.join(bd, "locks.ndjson")
+    vlib.sh([binp, "run", "-tests", os.path.join(bd, "tests.ndjson"), "-out", os.path.join(bd, "trace.ndjson"), "-work", bd, "-locktrace", lp], timeout=600)
+    recs = vlib.read_ndjson(lp)
+    expected = sum(len(r["ops"]) + 1 for r in recs)
+    import shutil
+    td = w.sub("bind-tlc")
+    for f in os.listdir(vlib.SPEC):
+        if f.endswith(".tla"):
+            shutil.copy(os.path.join(vlib.SPEC, f), td)
+    shutil.copy(tla, os.path.join(td, "SodLockFacts.tla"))
+    cfg = 'SPECIFICATION Spec\nCONSTANTS\n  TraceFile = "%s"\n  Dev = {}\n  Expected = %d\nINVARIANTS Follows Ends\nPOSTCONDITION TraceAccepted\nCHECK_DEADLOCK FALSE\n' % (lp, expected)
+    rb = vlib.tlc("SodLockTrace", cfg, td, workers=1, timeout=900, heap="6g")
+    ctx.trace_states += rb.distinct
+    ctx.tests += len(recs)
+    ctx.events += expected
+    ctx.extra_cov["lock_records_bound"] = len(recs)
+    ctx.extra_cov["lock_operations_bound"] = expected - len(recs)
+    ctx.extra_cov["entry_points_bound"] = sorted(set(r["entry"] for r in recs))
+    log("  [bind] %d recorded calls (%d lock operations, %d entry points) follow the extracted programs: %s" %
+        (len(recs), expected - len(recs), len(set(r["entry"] for r in recs)), "yes" if rb.ok() else "NO"))
+    if not rb.ok():
+        # the extraction misrepresents this tree: the design-level result does not apply; the verdict comes from the runs below
+        ll = rb.last_l()
+        log("NOTE model-drift: recorded lock operations are not a path of the extracted programs; the lock model is not applicable to this tree")
+        if ll and ll <= len(recs):
+            log("  first record not followed: %s" % json.dumps(recs[ll - 1])[:1500])
+        ctx.extra_cov["model_drift"] = True
+    # the concurrent corpus with the progress watchdog: a hang is the observation that confirms a model deadlock
+    ct = [gen.conc_test(uni, ctx.rng, i, nthreads=4, nops=3, cfgs=[(False, True), (True, True), (True, False), (False, False)]) for i in range(ctx.q(300, 4000))]
+    for t in ct:
+        t["cfg"]["thr"], t["cfg"]["tmo_ms"] = 1, 100
+    shards = vlib.run_harness(binp, ct, w.sub("run-hang"), per_test_timeout="10s", max_hangs=2)
+    ctx.tests += len(ct)
+    hangs = 0
+    byid = {t["id"]: t for t in ct}
+    for part, tp in shards:
+        cur, lines = None, []
+        for line in open(tp):
+            e = json.loads(line)
+            if e["ev"] == "reset":
+                cur, lines = e.get("id"), []
+            lines.append(line)
+            if e["ev"] == "hang":
+                hangs += 1
+                f = vlib.Failure(cur, "NoHang", len(lines) - 1, e, list(lines), (e.get("stack") or "")[-1500:])
+                record_failure(ctx, w, f, byid.get(cur), ["NoHang"], "watchdog")
+    ctx.extra_cov["concurrent_programs_with_watchdog"] = len(ct)
+    ctx.extra_cov["hangs_observed"] = hangs
+    log("  [hang] %d concurrent programs with an eager flusher under the progress watchdog: %d hangs" % (len(ct), hangs))
+    if bad and not ctx.extra_cov.get("model_drift"):
+        # a model counterexample: only a reproduced hang is a violation (never a model-only verdict)
+        r = bad[0]
+        if hangs == 0:
+            log("the lock model of this tree has a counterexample (%s) that the concurrent corpus did not reproduce as a hang" % (", ".join(r.violated) or "deadlock"))
+            log(r.out[-2500:])
+            raise vlib.Inconclusive("lock-model counterexample not reproduced on the real code")
+
+
 def check_C10(ctx, w):
     ctx.rule = ("every interleaving of foreground calls, clock ticks and flusher polls of the bounded async model (thresholds 1..2, timeouts 1..2 poll periods) replayed deterministically with the "
                 "virtual clock (the rewritten time.Sleep of the flusher blocks until the driver advances time); random async histories with thresholds 1..4, timeouts 1..5, deletes of pending "
@@ -499,7 +622,7 @@ def check_C19(ctx, w):
         ctx.exhaustive = True
 
 
-CHECKS = {"C08": check_C08, "C17": check_C17, "C10": check_C10, "C05": check_C05, "C11": check_C11, "C14": check_C14, "C18": check_C18, "C19": check_C19, "C12": check_C12, "C01": check_C01, "C02": check_C02, "C03": check_C03, "C04": check_C04, "C06": check_C06, "C07": check_C07,
+CHECKS = {"C09": check_C09, "C08": check_C08, "C17": check_C17, "C10": check_C10, "C05": check_C05, "C11": check_C11, "C14": check_C14, "C18": check_C18, "C19": check_C19, "C12": check_C12, "C01": check_C01, "C02": check_C02, "C03": check_C03, "C04": check_C04, "C06": check_C06, "C07": check_C07,
           "C13": check_C13, "C15": check_C15, "C16": check_C16, "C20": check_C20}
 
 TECH = "TLA+ design model (SodImpl) explored exhaustively by TLC, one generated test per model transition replayed on the real code, every recorded trace validated by TLC against the trace specification (SodTrace) with the property's invariant"
@@ -549,6 +672,11 @@ META.update({
     "C08": dict(level="model_checking", technique="concurrent executions of the real code recorded as invocation / return histories; TLC searches a linearization of every history against the abstract map (spec/SodLin.tla: Invoke / Linearize / Return, searches as two calls); the same programs run under the Go race detector with no driver-side synchronisation",
                 engine="tlc-lin",
                 text="result part: TLC decides, for every recorded history of 3-4 goroutines, whether some order of linearization points respecting real-time order explains every returned result and the final state (exhaustive search over linearization points per history); memory part: the race detector's report on real runs of the same generator (plus And/Or chains, flushes, Control, AssignIndex, settings switches, first access after reopen, active flusher) is the observation; any report or goroutine panic is a violation"),
+})
+META.update({
+    "C09": dict(level="model_checking", engine="tlc-lock",
+                technique="lock programs of every exported entry point and spawned goroutine extracted from the current source (tools/extract) into SodLockFacts.tla; TLC explores all interleavings of all pairs (thorough: triples) plus the flusher under Go RWMutex semantics in spec/SodLock.tla; extracted programs bound to the code by validating recorded lock operations against them (spec/SodLockTrace.tla); counterexamples must be reproduced as hangs of the real code",
+                text="TLC checks, for every pair of distinct entry programs of the CURRENT tree and the background flusher, over all interleavings: no goroutine ever waits for itself or for a goroutine that waits forever (NoWaitCycle), no re-entry of a held lock (the announced-writer deadlock), lock order handle < store < map < schema loading, balanced programs, and (thorough) every call returns under weak fairness; the facts are regenerated from the source at every run and tied to the binary by trace validation of the lock operations of real runs (call sites + entry points); a model counterexample alone never yields a violation: a hang under the watchdog does"),
 })
 NOT_YET = {
     "C09": "lock model (SodLock) not built yet in this round",
